@@ -20,7 +20,7 @@ SHARDS = {"quick": 8, "thorough": 16}
 
 
 def gen_cases(tier, seed):
-    n = 50 if tier == "quick" else 2500
+    n = 150 if tier == "quick" else 40000
     return [{"i": i, "seed": seed} for i in range(n)]
 
 
